@@ -129,6 +129,10 @@ def origin_of(value, key, stmt, pyscript_dir):
 
     if isinstance(value, str) and value.startswith(SENT_PREFIX):
         return ["ps", value[len(SENT_PREFIX):].split("#")[0]]
+    if stmt["kind"] == "import":
+        for a in stmt["names"]:
+            if (a[1] if a[1] is not None else a[0]) == key and sys.modules.get(a[0]) is value:
+                return ["sys", a[0]]
     if stmt["kind"] == "from" and stmt["module"]:
         mod = sys.modules.get(stmt["module"])
         if mod is not None:
@@ -437,7 +441,7 @@ async def op_logcall(req):
                 finally:
                     sys.stdout = real_out
                 recs = [[n == LOGGER_PATH + ".pvl", lvl, msg == case["msg"]] for n, lvl, msg in records
-                        if n.startswith(LOGGER_PATH + ".pvl") or case["msg"] in msg]
+                        if n.startswith(LOGGER_PATH + ".pvl") or msg == case["msg"]]  # the interpreter's own call trace on ...eval is not script output
                 out.append({"records": recs, "stdout": buf.getvalue() != "", "exc": f"{type(exc).__name__}: {exc}"[:100] if exc else ""})
             root.removeHandler(handler)
             root.setLevel(old)
